@@ -112,6 +112,7 @@ def fault_list(doc):
         for j, t in enumerate(s.get('transitions', [])):
             lab = '%s/t%d' % (n, j)
             out.append(('dangling-target', lab, lambda d, get=get, j=j: get(d)['transitions'][j].__setitem__('target', 'NOSUCH')))
+            out.append(('dangling-target-empty-name', lab, lambda d, get=get, j=j: get(d)['transitions'][j].__setitem__('target', '')))
             out.append(('unknown-transition-key', lab, lambda d, get=get, j=j: get(d)['transitions'][j].__setitem__('delay', 3)))
             out.append(('unknown-priority', lab, lambda d, get=get, j=j: get(d)['transitions'][j].__setitem__('priority', 'urgent')))
             for k, c in enumerate(t.get('contract', [])):
